@@ -2544,3 +2544,156 @@ Proof.
     + unfold p0. lia.
     + unfold endp, p0. lia.
 Qed.
+
+(* ------------------------------------------------------------------ the abbreviation table serves every entry *)
+
+Definition tab_ext (a b : list abbrev) : Prop := exists ext, b = a ++ ext.
+Lemma tab_ext_refl a : tab_ext a a. Proof. exists []. now rewrite app_nil_r. Qed.
+Lemma tab_ext_trans a b c : tab_ext a b -> tab_ext b c -> tab_ext a c.
+Proof. intros [x ->] [y ->]. exists (x ++ y). now rewrite app_assoc. Qed.
+
+Lemma abbrev_add_ext tab a code tab' : abbrev_add tab a = (code, tab') -> tab_ext tab tab'.
+Proof.
+  unfold abbrev_add. destruct (abbrev_find tab a); intros H; injection H as <- <-; [apply tab_ext_refl|now exists [a]].
+Qed.
+
+Lemma abbrev_lookup_ext tab tab' code ab : tab_ext tab tab' -> abbrev_lookup tab code = Some ab -> abbrev_lookup tab' code = Some ab.
+Proof.
+  intros [ext ->]. unfold abbrev_lookup. destruct (code =? 0); [discriminate|]. intros H.
+  rewrite nth_error_app1; [exact H|]. apply nth_error_Some. congruence.
+Qed.
+
+Lemma calc_list_abbrevs_ext dbg e ch :
+  Forall (fun d => forall st st', calc dbg e d st = Ok st' -> tab_ext (cs_abbrevs st) (cs_abbrevs st')) ch ->
+  forall st st', calc_list dbg e ch st = Ok st' -> tab_ext (cs_abbrevs st) (cs_abbrevs st').
+Proof.
+  induction 1 as [|c r Hc Hr IH]; intros st st' H; cbn [calc_list] in H.
+  - injection H as <-. apply tab_ext_refl.
+  - binds. eapply tab_ext_trans; [eapply Hc; eassumption|eapply IH; eassumption].
+Qed.
+
+Lemma calc_abbrevs_ext dbg e : forall d st st',
+  calc dbg e d st = Ok st' -> tab_ext (cs_abbrevs st) (cs_abbrevs st').
+Proof.
+  induction d as [id tag sib attrs ch IH] using die_ind2. intros st st' H.
+  rewrite calc_unfold in H.
+  apply bind_ok_inv in H. destruct H as [ents [_ H]].
+  apply bind_ok_inv in H. destruct H as [ab [_ H]].
+  destruct (abbrev_add (cs_abbrevs st) ab) as [code tab] eqn:EA.
+  apply bind_ok_inv in H. destruct H as [codes [_ H]].
+  apply bind_ok_inv in H. destruct H as [sz [_ H]].
+  apply bind_ok_inv in H. destruct H as [off1 [_ H]]. cbv zeta in H.
+  assert (X := abbrev_add_ext _ _ _ _ EA).
+  destruct ch as [|c r].
+  - injection H as <-. exact X.
+  - apply bind_ok_inv in H. destruct H as [st2 [E2 H]].
+    apply bind_ok_inv in H. destruct H as [off2 [_ H]]. injection H as <-. cbn [cs_abbrevs].
+    eapply tab_ext_trans; [exact X|]. apply (calc_list_abbrevs_ext dbg e _ IH _ _ E2).
+Qed.
+
+Definition codes_stmt (dbg : bool) (cx : wcx) (tabF : list abbrev) (d : die) : Prop :=
+  forall st st',
+    calc dbg (wc_enc cx) d st = Ok st' ->
+    tab_ext (cs_abbrevs st') tabF ->
+    agree_on (die_ids d) (wc_codes cx) (cs_codes st') ->
+    NoDup (die_ids d) ->
+    codes_ok dbg cx tabF d.
+
+Lemma calc_list_codes_ok dbg cx tabF ch :
+  Forall (codes_stmt dbg cx tabF) ch ->
+  forall st st',
+    calc_list dbg (wc_enc cx) ch st = Ok st' ->
+    tab_ext (cs_abbrevs st') tabF ->
+    agree_on (dies_ids ch) (wc_codes cx) (cs_codes st') ->
+    NoDup (dies_ids ch) ->
+    codes_ok_list dbg cx tabF ch.
+Proof.
+  induction 1 as [|c r Hc Hr IH]; intros st st' H X A ND; cbn [calc_list codes_ok_list] in *; [exact I|].
+  apply bind_ok_inv in H. destruct H as [sA [EA H]].
+  unfold dies_ids in *. cbn [flat_map] in *.
+  assert (FR := calc_list_frame' _ _ _ _ _ H). destruct FR as [_ [_ FR]].
+  assert (XR : tab_ext (cs_abbrevs sA) (cs_abbrevs st')).
+  { apply (calc_list_abbrevs_ext dbg (wc_enc cx) r); [|exact H]. apply Forall_forall. intros d _. apply calc_abbrevs_ext. }
+  split.
+  - eapply Hc; [exact EA| | |eapply NoDup_app_l; eassumption].
+    + eapply tab_ext_trans; eassumption.
+    + intros i Hi. rewrite A by (apply in_or_app; now left). apply (FR i). eapply NoDup_app_disj; eassumption.
+  - eapply IH; [exact H|exact X| |eapply NoDup_app_r; eassumption].
+    intros i Hi. apply A. apply in_or_app. now right.
+Qed.
+
+Lemma calc_codes_ok dbg cx tabF : forall d, codes_stmt dbg cx tabF d.
+Proof.
+  induction d as [id tag sib attrs ch IH] using die_ind2. intros st st' H X A ND.
+  cbn [die_ids] in *. inversion ND as [|? ? NDid NDch]; subst.
+  rewrite calc_unfold in H.
+  apply bind_ok_inv in H. destruct H as [ents [_ H]].
+  apply bind_ok_inv in H. destruct H as [ab [Eab H]].
+  destruct (abbrev_add (cs_abbrevs st) ab) as [code tab] eqn:EA.
+  apply bind_ok_inv in H. destruct H as [codes [Ecodes H]].
+  apply bind_ok_inv in H. destruct H as [sz [_ H]].
+  apply bind_ok_inv in H. destruct H as [off1 [_ H]]. cbv zeta in H.
+  destruct (set_nth_spec _ _ _ _ Ecodes) as [T1 _].
+  destruct (abbrev_add_spec _ _ _ _ EA) as [L _].
+  rewrite codes_ok_unfold.
+  destruct ch as [|c r].
+  - injection H as <-. cbn [cs_abbrevs cs_codes] in *. split; [|exact I].
+    exists code, ab. split; [rewrite (A id (or_introl eq_refl)); exact T1|]. split; [exact Eab|].
+    eapply abbrev_lookup_ext; eassumption.
+  - apply bind_ok_inv in H. destruct H as [st2 [E2 H]].
+    apply bind_ok_inv in H. destruct H as [off2 [_ H]]. injection H as <-. cbn [cs_abbrevs cs_codes] in *.
+    assert (FR := calc_list_frame' _ _ _ _ _ E2). destruct FR as [_ [_ FR]].
+    assert (X2 : tab_ext tab (cs_abbrevs st2)).
+    { apply (calc_list_abbrevs_ext dbg (wc_enc cx) (c :: r)) in E2; [exact E2|].
+      apply Forall_forall. intros d _. apply calc_abbrevs_ext. }
+    split.
+    + exists code, ab. split.
+      * rewrite (A id (or_introl eq_refl)). destruct (FR id NDid) as [_ F2]. rewrite F2. exact T1.
+      * split; [exact Eab|]. eapply abbrev_lookup_ext; [|exact L]. eapply tab_ext_trans; eassumption.
+    + eapply (calc_list_codes_ok dbg cx tabF (c :: r) IH); [exact E2|exact X| |exact NDch].
+      intros i Hi. apply A. now right.
+Qed.
+
+(* ------------------------------------------------------------------ roundtrip of one unit's entries *)
+
+Theorem roundtrip_lemma dbg cx root st0 st ops pre post sec' (f : eid -> list byte) fuel rest :
+  calc dbg (wc_enc cx) root st0 = Ok st ->
+  wc_codes cx = cs_codes st ->
+  write_die dbg cx root (cs_off st0) = Ok ops ->
+  NoDup (die_ids root) -> die_expr_ok root -> die_decodable root ->
+  cs_off st0 + ops_len ops < 2 ^ 64 ->
+  (forall j y, nth_error (cs_entries st0) j = Some y -> y = 0) ->
+  UnitWr.blen pre = cs_off st0 -> wc_unit_off cx <= cs_off st0 ->
+  (forall id b, ref_value dbg (wc_be cx) (wc_unit cx) (wc_unit_off cx) (cs_entries st) (wsz (wc_enc cx)) id = Some b -> f id = b) ->
+  (forall id, UnitWr.blen (f id) = wsz (wc_enc cx)) ->
+  patch_unit_refs dbg (wc_be cx) (wc_unit cx) (wc_unit_off cx) (cs_entries st) (wsz (wc_enc cx))
+                  (ops_unit_refs (cs_off st0) ops) (pre ++ ops_bytes ops ++ post) = Ok sec' ->
+  ops_len ops <= N.of_nat fuel ->
+  exists sd,
+    sec' = pre ++ ops_resolved f ops ++ post /\
+    decode_die fuel (wc_enc cx) (wc_be cx) (cs_abbrevs st) (cs_off st0) (ops_resolved f ops ++ rest) = Some (sd, rest) /\
+    dmatch cx f root (cs_off st0) (cs_off st0 + ops_len ops) sd /\
+    (forall id w', In (WUnitRef id w') ops ->
+       exists p, In (id_idx id, p) (ops_marks (cs_off st0) ops) /\
+                 nth_error (cs_entries st) (id_idx id) = Some p /\
+                 fixed_num (wc_be cx) (f id) = p - wc_unit_off cx).
+Proof.
+  intros HC Hcodes HW ND HX HD HB HZ Hpre Hu Hf Hfl HP HF.
+  destruct (refs_resolve_lemma dbg cx root st0 st ops pre post sec' f HC Hcodes HW ND HX HB HZ Hpre Hu Hf HP) as [R1 R2].
+  destruct (offsets_exact_lemma _ _ _ _ _ _ HC Hcodes HW ND HX HB) as [_ [_ O3]].
+  assert (CK : codes_ok dbg cx (cs_abbrevs st) root).
+  { eapply calc_codes_ok; [exact HC|apply tab_ext_refl| |exact ND]. intros i _. now rewrite Hcodes. }
+  destruct (decode_written dbg cx f (cs_abbrevs st) root fuel (cs_off st0) ops rest HW CK HD Hfl HB Hu HF) as [sd [D1 D2]].
+  exists sd. split; [exact R1|]. split; [exact D1|]. split; [exact D2|].
+  intros id w' Hi. destruct (R2 _ _ Hi) as [p [P1 [P2 _]]]. exists p. split; [exact P1|]. split; [now apply O3|].
+  assert (Dd := write_udata_dec _ _ _ _ [] P2).
+  assert (Lb := write_udata_len _ _ _ _ P2).
+  rewrite (dec_fixed_bytes _ _ _ [] Lb) in Dd. injection Dd as Dd. rewrite Dd.
+  apply N.mod_small. assert (Hge := ops_marks_ge _ _ _ _ P1).
+  assert (Hm := O3 _ _ P1).
+  (* p is a position inside the written bytes *)
+  assert (p <= cs_off st0 + ops_len ops); [|lia].
+  clear - P1. revert P1. generalize (cs_off st0) as q. induction ops as [|o r IH]; intros q P1; cbn [ops_marks] in P1; [destruct P1|].
+  rewrite ops_len_cons. destruct o; try (apply IH in P1; lia).
+  destruct P1 as [P1|P1]; [injection P1 as _ <-; lia|apply IH in P1; cbn [op_bytes] in *; lia].
+Qed.
